@@ -1,8 +1,10 @@
 package sim
 
 import (
+	"encoding/json"
 	"fmt"
 	"os"
+	"path/filepath"
 	"runtime"
 	"runtime/debug"
 	"sort"
@@ -37,6 +39,28 @@ type Ctx struct {
 	seq     int64 // global event sequence number: the simulation's only "time"
 	tracing bool
 	trace   []string
+	outDir  string
+	id      string
+}
+
+// SaveCurrent records the tape drawn so far as <out>/replays/<ID>-current.json.
+// Scenarios whose failure mode is the death of the process (the race
+// detector's halt_on_error) call it right before the dangerous part, so that
+// the supervisor can turn the death into a replay file.
+func (c *Ctx) SaveCurrent() {
+	if c.outDir == "" || c.T == nil {
+		return
+	}
+	tier := "quick"
+	if c.Thorough {
+		tier = "thorough"
+	}
+	rp := Replay{Property: c.id, Seed: c.Seed, Run: c.Run, Tier: tier, Tape: append([]uint64{}, c.T.Record()...)}
+	b, err := json.Marshal(rp)
+	if err != nil {
+		return
+	}
+	os.WriteFile(filepath.Join(c.outDir, "replays", c.id+"-current.json"), b, 0o644)
 }
 
 // Ev records one event of the run: it advances the event sequence number and
@@ -172,6 +196,8 @@ type Scenario struct {
 	Extra func(thorough bool, counts map[string]int64) map[string]interface{}
 	// Setup runs once per process before any run (e.g. install hooks).
 	Setup func() error
+	// OutDir is where replays are written (set by Main).
+	OutDir string
 	// MaxWorkers caps the worker pool (1 for scenarios that use process-global hooks).
 	MaxWorkers int
 }
@@ -179,7 +205,7 @@ type Scenario struct {
 // Execute performs one run on a tape. Harness panics propagate (exit 2);
 // panics of the code under test are caught by the scenarios via Guard.
 func (sc *Scenario) Execute(t *Tape, run, seed uint64, thorough bool, st *Stats, tracing bool) (*Violation, *Ctx) {
-	c := &Ctx{T: t, Thorough: thorough, Run: run, Seed: seed, st: st, tracing: tracing, h: 0xcbf29ce484222325}
+	c := &Ctx{T: t, Thorough: thorough, Run: run, Seed: seed, st: st, tracing: tracing, h: 0xcbf29ce484222325, outDir: sc.OutDir, id: sc.ID}
 	v := sc.RunFn(c)
 	st.Events += c.seq
 	st.Evals++
@@ -199,6 +225,15 @@ type Result struct {
 	Wall     time.Duration
 	Workers  int
 	HashFold uint64 // xor of (run index mixed with event-log hash): determinism witness
+}
+
+// FoundSigs lists the distinct violation signatures in run-index order.
+func (r *Result) FoundSigs() []string {
+	var out []string
+	for _, f := range r.Found {
+		out = append(out, fmt.Sprintf("%d:%s", f.run, f.v.Sig))
+	}
+	return out
 }
 
 // RunAll executes runs 0..n-1 of the scenario on a worker pool. The outcome is
